@@ -1,20 +1,26 @@
 (* C35 — HTTP GET requests never execute mutations.
-   Only property theorems here.  [get_guard i] is re-extracted from the source
-   text of integration i on every run (tools/factsgen/getguard.py): whether an
-   operation-type test lies between its GET handler and the executor.  All
-   theorems are stated for any value of these facts, so that adding a guard to
-   an integration turns its refutation into the guarded theorem without
-   touching the proofs. *)
+   Only property theorems here.  [get_guard i] and the wire keys of the shared
+   GET decoder are re-extracted from the source text on every run
+   (tools/factsgen/getguard.py): whether an operation-type test lies between
+   integration i's GET handler and the executor, and under which keys the
+   decoder reads its fields.  The guard theorems are stated for any value of the
+   guard facts, so that adding a guard to an integration turns its refutation
+   into the guarded theorem without touching the proofs.
+
+   A request is the RAW query string (bytes); [doc] is what the parser made of
+   the decoded query (None = syntax error), [tab] the spelling of the document's
+   operation names. *)
+From Coq Require Import String.
 From AG Require Import GetGuard GetGuardProofs.
 Open Scope N_scope.
 
 (* the property, for every integration whose GET path tests the operation type *)
-Theorem C35_guarded : forall i d opname,
-    get_guard i = true -> mutation_runs (handle_get i d opname) = 0.
+Theorem C35_guarded : forall i raw doc tab,
+    get_guard i = true -> mutation_runs (snd (handle_get i raw doc tab)) = 0.
 Proof. exact guarded_no_mutation. Qed.
 
-Theorem C35_guarded_spec : forall i d opname,
-    get_guard i = true -> spec_ok d opname (handle_get i d opname) = true.
+Theorem C35_guarded_spec : forall i raw doc tab,
+    get_guard i = true -> spec_ok i raw doc tab (snd (handle_get i raw doc tab)) = true.
 Proof. exact guarded_spec. Qed.
 
 Theorem C35_guard_keeps_queries : forall g g' o,
@@ -22,44 +28,166 @@ Theorem C35_guard_keeps_queries : forall g g' o,
 Proof. exact guard_keeps_queries. Qed.
 
 (* without one, every selected mutation runs: all requests, all five integrations *)
-Theorem C35_unguarded_runs : forall i d opname o,
-    get_guard i = false -> select_op d opname = Some o -> op_ty o = OpMutation ->
-    handle_get i d opname = GRan 0 (root_fields (op_sels o)).
+Theorem C35_unguarded_runs : forall i raw d tab q on o,
+    get_guard i = false -> decode i raw = DReq q on -> select_op d tab on = Some o -> op_ty o = OpMutation ->
+    handle_get i raw (Some d) tab = (DReq q on, GRan 0 (root_fields (op_sels o))).
 Proof. exact unguarded_runs. Qed.
 
 (* known finding: refutation for each unguarded integration *)
 Theorem C35_refuted : forall i,
     get_guard i = false ->
-    mutation_runs (handle_get i mut_doc None) = 1 /\
-    mutation_runs (handle_get i mixed_doc (Some 21)) = 2 /\
-    spec_ok mut_doc None (handle_get i mut_doc None) = false /\
-    known_class i mut_doc None = 1.
+    mutation_runs (snd (handle_get i raw_mut (Some mut_doc) [])) = 1 /\
+    mutation_runs (snd (handle_get i (raw_mixed i "B") (Some mixed_doc) mixed_tab)) = 2 /\
+    spec_ok i raw_mut (Some mut_doc) [] (snd (handle_get i raw_mut (Some mut_doc) [])) = false /\
+    known_class i raw_mut (Some mut_doc) [] = 1.
 Proof. exact unguarded_refuted. Qed.
 
-(* the verdict computed by the correspondence files is the theorems' *)
-Theorem C35_check_complete : forall i d opname,
-    known_class i d opname = 0 -> spec_ok d opname (handle_get i d opname) = true.
+(* the GET decoders carry the operation name verbatim: the decoded name is the
+   value of the first (for parse_query_string: the only) operation-name
+   parameter of the query string, byte for byte, and None only if there is none *)
+Theorem C35_decode_verbatim : forall i raw q on,
+    decode i raw = DReq q on -> on = first_value (opname_keys i) (parse_pairs raw).
+Proof. exact decode_verbatim. Qed.
+
+Theorem C35_decode_keeps_name : forall i ps q on k v,
+    decode_pairs i ps = DReq q on -> In (k, v) ps -> is_key (opname_keys i) k = true -> on <> None.
+Proof. exact decode_keeps_name. Qed.
+
+(* `operationName=`: Some "" stays Some "" *)
+Theorem C35_decode_empty_name : forall i ps q on k,
+    decode_pairs i ps = DReq q on -> In (k, []) ps -> is_key (opname_keys i) k = true ->
+    (forall k' v', In (k', v') ps -> is_key (opname_keys i) k' = true -> v' = []) ->
+    on = Some [].
+Proof. exact decode_empty_name. Qed.
+
+(* the executor's selection: a name selects only a named operation spelled
+   exactly like it; the single-operation shortcut needs the name to be absent *)
+Theorem C35_select_named : forall d tab s o,
+    select_op d tab (Some s) = Some o -> In o (doc_ops d) /\ exists id, op_name o = Some id /\ assoc id tab = Some s.
+Proof. exact select_named. Qed.
+
+Theorem C35_select_absent : forall d tab o, select_op d tab None = Some o <-> doc_ops d = [o].
+Proof. exact select_absent. Qed.
+
+Theorem C35_select_unspelled : forall d tab s,
+    (forall id s', assoc id tab = Some s' -> s' <> s) -> select_op d tab (Some s) = None.
+Proof. exact select_unspelled. Qed.
+
+(* Some "" never selects an operation, named or anonymous, single or not *)
+Theorem C35_select_empty_name : forall d tab,
+    (forall id s', assoc id tab = Some s' -> s' <> []) -> select_op d tab (Some []) = None.
+Proof. exact select_empty_name. Qed.
+
+Theorem C35_select_anonymous : forall d tab s o,
+    doc_ops d = [o] -> op_name o = None -> select_op d tab (Some s) = None.
+Proof. exact select_anonymous. Qed.
+
+(* the selection of the model is GetOperation of the GraphQL spec *)
+Theorem C35_selection_is_spec : forall d tab on, spec_get_operation d tab on = select_op d tab on.
+Proof. exact spec_get_operation_eq. Qed.
+
+(* an empty operation name is answered with an error on every integration *)
+Theorem C35_empty_name_is_error : forall i raw doc tab q,
+    decode i raw = DReq q (Some []) ->
+    (forall id s', assoc id tab = Some s' -> s' <> []) ->
+    handle_get i raw doc tab = (DReq q (Some []), GError).
+Proof. exact empty_name_is_error. Qed.
+
+(* the verdict computed by the correspondence files is the theorems': outside
+   the known class the model satisfies the specification ... *)
+Theorem C35_check_complete : forall i raw doc tab,
+    known_class i raw doc tab = 0 -> spec_ok i raw doc tab (snd (handle_get i raw doc tab)) = true.
 Proof. exact check_complete. Qed.
 
+(* ... the class holds only inputs on which the model itself executes the
+   mutation operation ... *)
+Theorem C35_known_sound : forall i raw doc tab,
+    known_class i raw doc tab <> 0 ->
+    (exists k, snd (handle_get i raw doc tab) = GRan 0 k) /\
+    spec_ok i raw doc tab (snd (handle_get i raw doc tab)) = false.
+Proof. exact known_sound. Qed.
+
+(* ... so impl <> model where model = spec is never excused by it ... *)
+Theorem C35_no_excuse : forall i raw doc tab impl_d impl_r,
+    spec_ok i raw doc tab (snd (handle_get i raw doc tab)) = true ->
+    check_case i raw doc tab impl_d impl_r = 0 \/
+    check_case i raw doc tab impl_d impl_r = 3 \/
+    check_case i raw doc tab impl_d impl_r = 4.
+Proof. exact no_excuse. Qed.
+
+(* ... and a mutation resolver running where the model answers with an error is verdict 4 *)
+Theorem C35_violation_verdict : forall i raw doc tab impl_d impl_r,
+    get_guard_local_gen i = false ->
+    snd (handle_get i raw doc tab) = GError -> mutation_runs impl_r <> 0 ->
+    check_case i raw doc tab impl_d impl_r = 4.
+Proof. exact violation_verdict. Qed.
+
+(* the sub-case that holds today: `mutation M { m }` with an empty, blank or
+   non-matching operation name *)
+Theorem C35_named_mutation_wrong_name : forall i,
+    handle_get i (raw_named_mut i "") (Some named_mut_doc) named_mut_tab = (DReq (b "mutation M { m }") (Some []), GError) /\
+    handle_get i (raw_named_mut i "+") (Some named_mut_doc) named_mut_tab = (DReq (b "mutation M { m }") (Some [c_sp]), GError) /\
+    handle_get i (raw_named_mut i "%4D%20") (Some named_mut_doc) named_mut_tab = (DReq (b "mutation M { m }") (Some (b "M ")), GError) /\
+    handle_get i (raw_named_mut i "m") (Some named_mut_doc) named_mut_tab = (DReq (b "mutation M { m }") (Some (b "m")), GError) /\
+    known_class i (raw_named_mut i "") (Some named_mut_doc) named_mut_tab = 0 /\
+    (get_guard i = false ->
+     handle_get i (raw_named_mut i "%4D") (Some named_mut_doc) named_mut_tab = (DReq (b "mutation M { m }") (Some (b "M")), GRan 0 1)).
+Proof. exact named_mutation_wrong_name. Qed.
+
+Theorem C35_empty_name_run_is_violation : forall i impl_d q m,
+    get_guard_local_gen i = false -> m <> 0 ->
+    check_case i (raw_named_mut i "") (Some named_mut_doc) named_mut_tab impl_d (GRan q m) = 4.
+Proof. exact empty_name_run_is_violation. Qed.
+
+Theorem C35_anonymous_mutation_empty_name : forall i,
+    handle_get i (raw_mut ++ [c_amp] ++ hd [] (opname_keys i) ++ [c_eq]) (Some mut_doc) [] =
+    (DReq (b "mutation { m }") (Some []), GError).
+Proof. exact anonymous_mutation_empty_name. Qed.
+
 Theorem C35_nonvacuous : forall i,
-    handle_get i mixed_doc (Some 20) = GRan 1 0 /\
-    (get_guard i = true -> handle_get i mixed_doc (Some 21) = GError) /\
-    handle_get i mixed_doc None = GError.
+    snd (handle_get i (raw_mixed i "A") (Some mixed_doc) mixed_tab) = GRan 1 0 /\
+    (get_guard i = true -> snd (handle_get i (raw_mixed i "B") (Some mixed_doc) mixed_tab) = GError) /\
+    snd (handle_get i raw_mixed_q (Some mixed_doc) mixed_tab) = GError /\
+    known_class i (raw_mixed i "A") (Some mixed_doc) mixed_tab = 0.
 Proof. exact nonvacuous. Qed.
 
-Check C35_guarded : forall i d opname,
-    get_guard i = true -> mutation_runs (handle_get i d opname) = 0.
+Check C35_guarded : forall i raw doc tab,
+    get_guard i = true -> mutation_runs (snd (handle_get i raw doc tab)) = 0.
 Check C35_refuted : forall i,
     get_guard i = false ->
-    mutation_runs (handle_get i mut_doc None) = 1 /\
-    mutation_runs (handle_get i mixed_doc (Some 21)) = 2 /\
-    spec_ok mut_doc None (handle_get i mut_doc None) = false /\
-    known_class i mut_doc None = 1.
+    mutation_runs (snd (handle_get i raw_mut (Some mut_doc) [])) = 1 /\
+    mutation_runs (snd (handle_get i (raw_mixed i "B") (Some mixed_doc) mixed_tab)) = 2 /\
+    spec_ok i raw_mut (Some mut_doc) [] (snd (handle_get i raw_mut (Some mut_doc) [])) = false /\
+    known_class i raw_mut (Some mut_doc) [] = 1.
+Check C35_decode_verbatim : forall i raw q on,
+    decode i raw = DReq q on -> on = first_value (opname_keys i) (parse_pairs raw).
+Check C35_select_empty_name : forall d tab,
+    (forall id s', assoc id tab = Some s' -> s' <> []) -> select_op d tab (Some []) = None.
+Check C35_violation_verdict : forall i raw doc tab impl_d impl_r,
+    get_guard_local_gen i = false ->
+    snd (handle_get i raw doc tab) = GError -> mutation_runs impl_r <> 0 ->
+    check_case i raw doc tab impl_d impl_r = 4.
 
 Print Assumptions C35_guarded.
 Print Assumptions C35_guarded_spec.
 Print Assumptions C35_guard_keeps_queries.
 Print Assumptions C35_unguarded_runs.
 Print Assumptions C35_refuted.
+Print Assumptions C35_decode_verbatim.
+Print Assumptions C35_decode_keeps_name.
+Print Assumptions C35_decode_empty_name.
+Print Assumptions C35_select_named.
+Print Assumptions C35_select_absent.
+Print Assumptions C35_select_unspelled.
+Print Assumptions C35_select_empty_name.
+Print Assumptions C35_select_anonymous.
+Print Assumptions C35_selection_is_spec.
+Print Assumptions C35_empty_name_is_error.
 Print Assumptions C35_check_complete.
+Print Assumptions C35_known_sound.
+Print Assumptions C35_no_excuse.
+Print Assumptions C35_violation_verdict.
+Print Assumptions C35_named_mutation_wrong_name.
+Print Assumptions C35_empty_name_run_is_violation.
+Print Assumptions C35_anonymous_mutation_empty_name.
 Print Assumptions C35_nonvacuous.
